@@ -1061,8 +1061,10 @@ func compareSemanticallyEquivalentTypes(newType, oldType *SimpleType, context *E
 	}
 
 	typeArgDefinitionChanged := false
-	if len(newType.TypeArguments) > 0 || len(oldType.TypeArguments) > 0 {
-		// Resolve both definitions to their base definitions then compare their TypeArguments
+	{
+		// Resolve both definitions to their base definitions then compare their TypeArguments.
+		// This must also happen when neither reference carries explicit type arguments, because
+		// both may reach the generic definition through (differently named) closed aliases.
 		newTypeArgs := getBaseDefinition(newDef).GetDefinitionMeta().TypeArguments
 		oldTypeArgs := getBaseDefinition(oldDef).GetDefinitionMeta().TypeArguments
 		if len(newTypeArgs) == len(oldTypeArgs) {
